@@ -567,6 +567,10 @@ func main() {
 		idScenarios(r)
 		r.Finish("debug run: id value space only", nil)
 	}
+	if os.Getenv("C01_ONLY") == "connfault" { // debugging aid: only the connection-fault episodes
+		connFaultScenarios(r)
+		r.Finish("debug run: connection-fault episodes only", nil)
+	}
 	for round := 0; round < rounds; round++ {
 		for _, kind := range kit.AllKinds {
 			for _, regime := range []string{"immediate", "delay", "barrier"} {
@@ -599,6 +603,7 @@ func main() {
 	}
 	mixScenarios(r)
 	pressureScenarios(r)
+	connFaultScenarios(r)
 
 	r.Finish("7 server configurations x {raw peer, library client} x completion regimes {immediate, random delay, barrier release}; "+
 		"raw peers use every id class (small/large integers up to 2^53, strings incl. digit strings and non-ASCII, same value as string and integer); "+
@@ -617,11 +622,19 @@ func main() {
 		"(ListTools, ListPrompts, ListResources, GetPrompt ok / handler error, ReadResource ok / handler error, CallTool result / Go error / isError / a tool that asks the client for its roots so that a server-issued "+
 		"roots/list is answered meanwhile, roots list_changed notification); the first request after Initialize is, over the histories, each operation kind and a slow call; then the gates open. Every call must return its own answer "+
 		"(the nonce it sent and the digest of its payload, the server's complete tool / prompt / resource list, the prompt built from its own argument, the contents of the URI it asked for, its own error text), handlers run once per request. "+
-		"A case is distinct by (scenario, configuration, regime, id class) — mix: (configuration, operation, phase of the history, number of calls pending when issued), counted only in histories whose slow calls were all seen pending "+
+		"Connection-fault episodes (library HTTP clients against the 5 Streamable configurations and the legacy SSE server, GET stream on and off; client -> TCP relay -> thin wrapper -> the real library handler): "+
+		"a call without any retry option is placed on a reused keep-alive connection (after a warm-up call), directly after Initialize (behind the 202 of notifications/initialized), behind the 202 of a roots list_changed notification, "+
+		"or on a fresh connection, and once the request has reached the server the connection dies: the wrapper lets the real handler serve it into a recorder and then closes / resets (SO_LINGER 0) / aborts (http.ErrAbortHandler) / "+
+		"hijacks-and-closes without serving; the tool handler itself panics with http.ErrAbortHandler; the relay cuts the real answer before its first byte, after the status line, after the header block or inside the body, with FIN or RST; "+
+		"or the server closes the idle connection just before the call. Per call: runs of the tool handler for its nonce and arrivals at the server are counted; without retry option the handler must not run twice "+
+		"(and must have run when the real handler answered 200), whatever the client returns; the calls before and after it run once and any answer returned is the call's own. The same faults with WithRetry(MaxRetries=2), hitting the first "+
+		"arrival or every arrival: the handler runs at most 3 times and re-execution is actually observed. "+
+		"A case is distinct by (scenario, configuration, regime, id class) — conn-fault: (configuration, position, fault, retry, arrived on reused/fresh connection, client outcome, handler runs), counted only when the fault was applied to a request that arrived — mix: (configuration, operation, phase of the history, number of calls pending when issued), counted only in histories whose slow calls were all seen pending "+
 		"until the release — and non-trivial when its answer was checked for id, nonce and digest (mix: against what the call asked for).",
 		[]string{"ids above 2^53 are outside the statement", "interleavings are sampled, not enumerated", "a missing answer is judged after a 20 s wait on an otherwise idle loopback connection",
 			"operation-mix histories: a call is called unanswered only when its 40 s watchdog fired (slow calls: counted from the release of the gate, and only when the handler is recorded to have returned) AND a call issued afterwards on the same client was answered; a transport failure is judged the same way; without the later answer the case is inconclusive",
 			"operation-mix histories: the context given to Initialize is kept alive for the whole history (cancelling it is a client life-cycle matter)",
 			"id value space: an id is echoed when the response id is equal as a JSON value (strings by code points whatever the escaping, numbers by exact value whatever the spelling) and of the same JSON type; integers written with an exponent or a zero fraction may also be refused with an error; on the asynchronous transports an answer is called missing only after the stream delivered nothing for 15 s AND two pings posted afterwards were answered on it, an error frame without id is attributed to a pending number-form request by count",
+			"connection-fault episodes: with a retry option configured the statement gives no number; the check reads it as at most MaxRetries+1 runs; a request the wrapper never handed to the real handler, or one that never arrived, may have 0 runs; a tool not seen running within 8 s on the legacy server (asynchronous) or behind the relay is inconclusive",
 			"back-pressure episodes: an answer is called missing only after the stream delivered nothing for 15 s AND two pings posted afterwards were answered on the same stream (Streamable: the POST's own response ended in order without it)"})
 }
